@@ -1,6 +1,7 @@
 """C15 — every operation terminates on every reference-graph shape (and the reachability worklist is correct)."""
 import json
 import os
+import signal
 import subprocess
 import sys
 import time
@@ -13,7 +14,7 @@ COQ_TARGETS = ["Reach.vo", "ReachProofs.vo", "RefutedC15.vo", "CorrC15.vo", "Pro
 PROPS_FILE = "Props/C15.v"
 CORR_IMPORTS = "Base Heap Schema Reach CorrC15"
 ENTRY = "cassis.cas.Cas._find_all_fs (and to_xmi / to_json / load_cas_from_xmi / load_cas_from_json / typecheck / select / cas_to_comparable_text for the deadline)"
-CASE_TIMEOUT_S = 120
+CASE_TIMEOUT_S = 10          # graph cases take milliseconds; the deadline replay extends its own alarm
 RULE = (
     "Correspondence: systematic reference-graph shapes (chains, cycles, self-references, diamond chains, inline and "
     "shared FSArray/FSList holding the same or an already visited structure several times, null elements, cyclic tail "
@@ -406,10 +407,27 @@ def _probe_next(cas, ts, tspec):
     return p.xmiID
 
 
+_STATE = {"running": False, "hung": 0, "shrinks": 0}
+
+
 def run_impl(cassis, sc):
     if sc.get("kind") == "timing":
+        signal.setitimer(signal.ITIMER_REAL, 600)          # replay of a deadline counterexample: subprocesses have their own caps
         return _run_timing_case(sc)
     _CASSIS["m"] = cassis
+    if _STATE["running"]:                                  # the previous call never came back: it was cut by the engine's alarm
+        _STATE["hung"] += 1
+    if _STATE["hung"] >= 3:                                # the tree under test hangs: do not spend 10 s on every further case
+        signal.setitimer(signal.ITIMER_REAL, 1.5)
+    _STATE["running"] = True
+    try:
+        return _run_graph(cassis, sc)
+    except Exception:
+        _STATE["running"] = False
+        raise
+
+
+def _run_graph(cassis, sc):
     ts = scen.build_ts(cassis, sc["tspec"])
     # the generator's next id before the traversal: on a twin CAS built the same way
     cas0, _v0, _o0 = scen.build_cas(cassis, ts, sc["cspec"])
@@ -428,6 +446,7 @@ def run_impl(cassis, sc):
         err = _errkind(e)
     ids_after = {str(l): o.xmiID for l, o in objs.items()}
     next_after = _probe_next(cas, ts, sc["tspec"])
+    _STATE["running"] = False
     return {"next_before": next_before, "ids_before": ids_before, "members": members, "sofas": sofas, "err": err,
             "found": found, "ids_after": ids_after, "next_after": next_after}
 
@@ -548,23 +567,23 @@ def _g_cas(sc, obs):
 
 G_OBJ_TYPES = ["g.Node", "g.Sub", "g.Ann", FS_ARRAY, NE_LIST, E_LIST, T + "IntegerArray", T + "NonEmptyStringList",
                T + "EmptyStringList", T + "StringArray"]
-_SCHEMA_G = {}
+_SCHEMA_CONST = {}
 
 
-def _schema_g_usable(cassis):
-    """True when the constant CorrC15.schemaG is, character for character, what would be rendered for G_TSPEC now."""
-    if "ok" not in _SCHEMA_G:
-        schema = scen.schema_of(cassis, G_TSPEC)
-        names = scen.used_type_names(schema, {"objs": [{"type": t} for t in G_OBJ_TYPES]})
+def schema_const_usable(cassis, tspec, obj_types, coq_file, marker):
+    """(usable, names): usable when the constant between `(* BEGIN marker *)` and `(* END marker *)` in coq/<coq_file> is,
+    character for character, what scen.g_schema would render now for tspec (closure of obj_types)."""
+    if marker not in _SCHEMA_CONST:
+        schema = scen.schema_of(cassis, tspec)
+        names = scen.used_type_names(schema, {"objs": [{"type": t} for t in obj_types]})
         want = scen.g_schema(schema, names)
         try:
-            src = open(os.path.join(core.COQ, "CorrC15.v"), encoding="utf-8").read()
-            have = src.split("(* BEGIN schemaG *)\n")[1].split("\n(* END schemaG *)")[0]
+            src = open(os.path.join(core.COQ, coq_file), encoding="utf-8").read()
+            have = src.split(f"(* BEGIN {marker} *)\n")[1].split(f"\n(* END {marker} *)")[0]
         except Exception:  # noqa
             have = None
-        _SCHEMA_G["ok"] = have == want
-        _SCHEMA_G["names"] = set(names)
-    return _SCHEMA_G["ok"]
+        _SCHEMA_CONST[marker] = (have == want, set(names), want)
+    return _SCHEMA_CONST[marker][0], _SCHEMA_CONST[marker][1]
 
 
 def render(sc, obs):
@@ -573,8 +592,10 @@ def render(sc, obs):
     if any(l < 0 for m in obs["members"] for l in m) or any(l < 0 for _i, l in obs["found"]):
         return None
     cassis = _CASSIS.get("m")
-    if sc["tspec"] == G_TSPEC and _schema_g_usable(cassis) and all(o["type"] in _SCHEMA_G["names"] for o in sc["cspec"]["objs"]):
-        return _render_with("schemaG", sc, obs)
+    if sc["tspec"] == G_TSPEC:
+        ok, names = schema_const_usable(cassis, G_TSPEC, G_OBJ_TYPES, "CorrC15.v", "schemaG")
+        if ok and all(o["type"] in names for o in sc["cspec"]["objs"]):
+            return _render_with("schemaG", sc, obs)
     schema = scen.schema_of(cassis, sc["tspec"])
     names = scen.used_type_names(schema, sc["cspec"])
     return _render_with(scen.g_schema(schema, names), sc, obs)
@@ -607,9 +628,20 @@ def nontrivial(sc):
     return any(k > 1 for k in refs.values())
 
 
+SHRINK_BUDGET = 150
+
+
 def shrink_candidates(sc):
     if sc.get("kind") == "timing":
         return
+    for c in _shrink_candidates(sc):
+        _STATE["shrinks"] += 1
+        if _STATE["shrinks"] > SHRINK_BUDGET:          # global budget: a hanging tree makes every candidate cost a timeout
+            return
+        yield c
+
+
+def _shrink_candidates(sc):
     objs = sc["cspec"]["objs"]
     # drop one object that nothing refers to and that is no member/seed; or clear one slot; or drop one member
     used = set()
